@@ -65,7 +65,17 @@ class Engine(CallMixin):
             for fname, probs in self.family_problems.items():
                 if probs and self._uses_family(c, fname):
                     raise Unsupported(f"term class model '{fname}' no longer matches the source: {'; '.join(probs)}")
-            self._verify_body(c, fi)
+            if c.variants:
+                import dataclasses
+                base_params = dict(c.params)
+                for i, ov in enumerate(c.variants):
+                    cv = dataclasses.replace(c, params={**base_params, **ov}, variants=[])
+                    cv.virtual = getattr(c, "virtual", False)
+                    self.cur_variant = f"#v{i}"
+                    self._verify_body(cv, fi)
+                self.cur_variant = ""
+            else:
+                self._verify_body(c, fi)
         except Unsupported as ex:
             stats["unsupported"] = str(ex)
             self.unsupported.append((c.key, str(ex)))
